@@ -10,5 +10,9 @@ PROP = dict(
     targets=[dict(name='c01_appdata_gate', src=['props/C01/appdata_gate.cc', 'harness/wraps.c'], wraps=WRAPS, env={'VERIF_DIR': '/verif'},
                   quick=dict(cases=3200, secs=70), thorough=dict(cases=150000, secs=1000)),
              dict(name='c01_early_data', src=['props/C01/early_data.cc', 'harness/wraps.c'], wraps=WRAPS, env={'VERIF_DIR': '/verif'},
-                  quick=dict(cases=1200, secs=40), thorough=dict(cases=40000, secs=400))],
+                  quick=dict(cases=1200, secs=40), thorough=dict(cases=40000, secs=400)),
+             # forged abbreviated handshakes: victim client whose sslSessionId_t went through {nothing, a handshake cut after NewSessionTicket, completed id / ticket / id+ticket
+             # session}; a keyless scripted peer (harness/puppet12) answers ServerHello [NST] CCS Finished + application data under guessed master secrets
+             dict(name='c01_forged_resumption', src=['props/C01/forged_resumption.cc', 'harness/puppet12.cc', 'harness/wraps.c'], libs=['-lcrypto'], wraps=WRAPS, env={'VERIF_DIR': '/verif'},
+                  quick=dict(cases=6400, secs=25), thorough=dict(cases=200000, secs=300))],
 )
